@@ -1,15 +1,565 @@
 /-
-  C11 — TSIG MACs match RFC 8945 and detect tampering.   (theorems follow; placeholder)
+  C11 — TSIG MACs match RFC 8945 and detect tampering.
+
+  "Every MAC the library produces for request, response and subsequent messages equals an
+   independent RFC 8945 §4.3 computation over the message (with original ID and decremented ARCOUNT)
+   and the TSIG variables. Verification accepts exactly the messages whose MAC (possibly truncated to
+   an allowed length) matches that computation and whose time is within the fudge window; changing
+   any covered octet makes it fail."
+
+  Model: `QV.Model.Tsig` (mirrors src/message/tsig.rs, src/rr/rdata/tsig.rs).
+  Spec : `QV.Spec.Tsig`  (RFC 8945 §4.2, §4.3, §5.2.2.1, §5.2.3, §5.3.1 from the RFC text).
+
+  Every theorem below holds for an **arbitrary MAC function**
+      `hm : Algorithm → Octets → Octets → Octets`      (algorithm, key, data ↦ tag);
+  nothing depends on SHA-1/SHA-256/HMAC (`QV.Model.Sha`, `QV.Model.Hmac`), which are tied to the
+  crates by the correspondence check only.  Collision resistance of HMAC is *assumed, not proved*:
+  the tamper theorems reduce "a changed message is accepted" to an explicit collision of the
+  (truncated) MAC on two different inputs.
+
+  The three modes are handled at once (`Mode`, `inputMode`, `signMode`, `verifyMode` in
+  `QV.Proofs.Tsig` are case distinctions over `requestInput/responseInput/subsequentInput`,
+  `signRequest/…`, `verifyRequest/…`).
+
+  Preconditions of the code (documented in src/message/tsig.rs; outside them it panics):
+    `MsgOk m`            the buffer has a 12-octet header and ARCOUNT ≥ 1 (it counts the TSIG RR);
+                         ARCOUNT = 0 is the `- 1` underflow of `add_modified_message`.  `Writer::
+                         finish_with_mac` meets it: `set_tsig` increments ARCOUNT before signing.
+    `signAsserts`/`verifyAsserts`   the prior MAC has at most 65535 octets (asserted by `sign_response`,
+                         `sign_subsequent`, `verify_response`; *not* by `verify_subsequent`, whose
+                         length prefix silently wraps — see `C11_verify_subsequent_prior_mac_wraps`).
+    `r.algorithm = alg.name`        the algorithm argument is the one the RR names (`assert_eq!`).
 -/
-import QV.Model.Tsig
-import QV.Spec.Tsig
+import QV.Proofs.Tsig
 
 namespace QV.C11
 open QV QV.Tsig
+open QV.Spec.Tsig (digestInput MacSizeAllowed TimeOk verdict Verdict)
 
+variable (hm : Algorithm → Octets → Octets → Octets)
+
+/-! ## 1. The MAC input is the RFC 8945 §4.3 construction -/
+
+/-- **Digest input = RFC, all three modes, all inputs.**  Whenever the model's variables carry what
+    the RFC's TSIG variables describe (`Abstracts`: key and algorithm name in canonical wire format,
+    CLASS ANY, TTL 0, same time / fudge / error / other data), the octets fed to the MAC are exactly
+    `[len ‖ prior MAC] ‖ message[ID := original ID, ARCOUNT − 1] ‖ variables` (timers only for a
+    subsequent message) of the RFC — and the code panics exactly when the message has no full header
+    or ARCOUNT = 0. -/
+theorem C11_digest_input_eq_rfc {ε} (mode : Mode) (m pm : Octets) (id : UInt16) (v : Variables)
+    (sv : Spec.Tsig.Vars) (h : Abstracts v sv) :
+    inputMode (ε := ε) mode m pm id v =
+      if MsgOk m then .ok (digestInput mode m id.toNat sv pm) else .panic :=
+  inputMode_eq mode m pm id v sv h
+
+/-- `Abstracts` is what the code's types give: a `LowercaseName` made from a name with labels `kl`
+    is the canonical wire format of that name (RFC 4034 §6.2), whatever the case of its letters. -/
+theorem C11_lowercase_name_is_canonical (kl al : List Octets) (ts : TimeSigned) (f e : UInt16) (o : Octets)
+    (hk : ∀ l ∈ kl, l.length ≤ 63) (ha : ∀ l ∈ al, l.length ≤ 63) :
+    Abstracts ⟨lowerName (wireOf kl), lowerName (wireOf al), ts, f, e, o⟩
+      { keyName := kl, algName := al, timeSigned := ts.toUnix, fudge := f.toNat, error := e.toNat, other := o } :=
+  ⟨lowerName_wireOf kl hk, lowerName_wireOf al ha, rfl, rfl, rfl, rfl, rfl, rfl⟩
+
+/-- the two algorithm names of the code are the canonical forms of the names of RFC 8945 §6, with
+    the output sizes of their hashes -/
+theorem C11_algorithm_names :
+    Spec.Tsig.algorithms.map (fun a => (Spec.Tsig.canonName a.1, a.2)) =
+      [(Algorithm.name .HmacSha1, Hmac.Alg.outputSize .HmacSha1),
+       (Algorithm.name .HmacSha256, Hmac.Alg.outputSize .HmacSha256)] := by decide
+
+/-- … and they are the ones extracted from the source on this run -/
 theorem C11_algorithms_match_source :
     Gen.tsigAlgorithms.map (fun r => (r.2.2.1, r.2.2.2.2)) =
       [(Algorithm.name .HmacSha1, Hmac.Alg.outputSize .HmacSha1),
        (Algorithm.name .HmacSha256, Hmac.Alg.outputSize .HmacSha256)] := algorithms_match_source
+
+/-- **Every MAC the library produces equals the RFC computation** (request, response, subsequent):
+    `sign_*` returns the tag of the RFC's digest input and the RDATA of RFC 8945 §4.2 built from it;
+    it panics exactly outside its documented preconditions.  (`hlen` only excludes MAC functions
+    with absurdly long tags, for which `serialize_rdata` would hit `RdataTooLongError`.) -/
+theorem C11_sign_eq_rfc {ε} (mode : Mode) (p : PreparedTsigRr) (m pm : Octets) (alg : Algorithm) (key : Octets)
+    (sv : Spec.Tsig.Vars) (h : Abstracts (p.vars alg.name) sv)
+    (hlen : (hm alg key (digestInput mode m p.originalId.toNat sv pm)).length ≤ 65000) :
+    signMode (ε := ε) hm mode p m pm alg key =
+      if signAsserts mode pm ∧ MsgOk m then
+        .ok (Spec.Tsig.rdata sv (hm alg key (digestInput mode m p.originalId.toNat sv pm)) p.originalId.toNat,
+             hm alg key (digestInput mode m p.originalId.toNat sv pm))
+      else .panic :=
+  signMode_eq hm mode p m pm alg key sv h hlen
+
+/-! ## 2. Verification accepts exactly … ; error precedence -/
+
+/-- **The whole of `verify_*` as a decision table.**  In this order: the asserts (else panic); the
+    truncation policy of §5.2.2.1 (else `FormErr`); the precondition on the message (else panic);
+    the MAC compared with the first `mac_size` octets of the RFC computation (else `BadSig`); the
+    time window of §5.2.3 (else `BadTime`); `Ok`.  So FormErr > BadSig > BadTime. -/
+theorem C11_verify_decision (mode : Mode) (r : ReadTsigRr) (m pm : Octets) (alg : Algorithm) (key : Octets)
+    (now : TimeSigned) (sv : Spec.Tsig.Vars) (hv : r.mac.length = r.macSize) (h : Abstracts r.vars sv) :
+    verifyMode hm mode r m pm alg key now =
+      if ¬ verifyAsserts mode pm ∨ r.algorithm ≠ alg.name then .panic
+      else if ¬ MacSizeAllowed alg.outputSize r.macSize then .err .FormErr
+      else if ¬ MsgOk m then .panic
+      else verdictOut (verdict alg.outputSize
+        (hm alg key (digestInput mode m r.originalId.toNat sv pm)) r.mac now.toUnix sv.timeSigned sv.fudge) :=
+  verifyMode_eq hm mode r m pm alg key now sv hv h
+
+/-- `r.mac.length = r.macSize` holds for every record a `Reader` hands out (`validate_as_tsig`
+    checked `algorithm_len + mac_size + other_len + 16 = rdlength`) -/
+theorem C11_mac_length_of_valid (r : ReadTsigRr) (h : r.algoLen + r.macSize + 16 ≤ r.rdata.length) :
+    r.mac.length = r.macSize := mac_length_of_valid r h
+
+section
+variable (mode : Mode) (r : ReadTsigRr) (m pm : Octets) (alg : Algorithm) (key : Octets) (now : TimeSigned)
+  (sv : Spec.Tsig.Vars) (hv : r.mac.length = r.macSize) (habs : Abstracts r.vars sv)
+  (hpre : verifyAsserts mode pm ∧ r.algorithm = alg.name ∧ MsgOk m)
+include hv habs hpre
+
+/-- **Verification accepts exactly** the messages whose MAC has an allowed size, equals the RFC
+    computation truncated to that size, and whose time lies within the fudge window. -/
+theorem C11_verify_ok_iff :
+    verifyMode hm mode r m pm alg key now = .ok () ↔
+      MacSizeAllowed alg.outputSize r.macSize ∧
+      (hm alg key (digestInput mode m r.originalId.toNat sv pm)).take r.macSize = r.mac ∧
+      TimeOk now.toUnix sv.timeSigned sv.fudge := by
+  obtain ⟨h1, h2, h3⟩ := hpre
+  rw [C11_verify_decision hm mode r m pm alg key now sv hv habs]
+  have e0 : ¬ (¬ verifyAsserts mode pm ∨ r.algorithm ≠ alg.name) := by
+    intro h; rcases h with h | h; exact h h1; exact h h2
+  rw [if_neg e0]
+  unfold verdict
+  rw [hv]
+  by_cases hs : MacSizeAllowed alg.outputSize r.macSize
+  · rw [if_neg (fun h => h hs), if_neg (fun h => h h3), if_neg (fun h => h hs)]
+    by_cases hmac : List.take r.macSize (hm alg key (digestInput mode m r.originalId.toNat sv pm)) = r.mac
+    · rw [if_neg (fun h => h hmac)]
+      by_cases ht : TimeOk now.toUnix sv.timeSigned sv.fudge
+      · rw [if_neg (fun h => h ht)]; simp [verdictOut, hs, hmac, ht]
+      · rw [if_pos ht]; simp [verdictOut, ht]
+    · rw [if_pos hmac]; simp [verdictOut, hmac]
+  · rw [if_pos hs]; simp [hs]
+
+/-- FORMERR exactly for a MAC size outside `max(10, ⌈out/2⌉) ≤ size ≤ out` — before anything else -/
+theorem C11_verify_formerr_iff :
+    verifyMode hm mode r m pm alg key now = .err .FormErr ↔ ¬ MacSizeAllowed alg.outputSize r.macSize := by
+  obtain ⟨h1, h2, h3⟩ := hpre
+  rw [C11_verify_decision hm mode r m pm alg key now sv hv habs]
+  have e0 : ¬ (¬ verifyAsserts mode pm ∨ r.algorithm ≠ alg.name) := by
+    intro h; rcases h with h | h; exact h h1; exact h h2
+  rw [if_neg e0]
+  unfold verdict
+  rw [hv]
+  by_cases hs : MacSizeAllowed alg.outputSize r.macSize
+  · rw [if_neg (fun h => h hs), if_neg (fun h => h h3), if_neg (fun h => h hs)]
+    by_cases hmac : List.take r.macSize (hm alg key (digestInput mode m r.originalId.toNat sv pm)) = r.mac
+    · rw [if_neg (fun h => h hmac)]
+      by_cases ht : TimeOk now.toUnix sv.timeSigned sv.fudge
+      · rw [if_neg (fun h => h ht)]; simp [verdictOut, hs]
+      · rw [if_pos ht]; simp [verdictOut, hs]
+    · rw [if_pos hmac]; simp [verdictOut, hs]
+  · rw [if_pos hs]; simp [hs]
+
+/-- BADSIG exactly for an allowed size with a wrong MAC — whatever the time -/
+theorem C11_verify_badsig_iff :
+    verifyMode hm mode r m pm alg key now = .err .BadSig ↔
+      MacSizeAllowed alg.outputSize r.macSize ∧
+      (hm alg key (digestInput mode m r.originalId.toNat sv pm)).take r.macSize ≠ r.mac := by
+  obtain ⟨h1, h2, h3⟩ := hpre
+  rw [C11_verify_decision hm mode r m pm alg key now sv hv habs]
+  have e0 : ¬ (¬ verifyAsserts mode pm ∨ r.algorithm ≠ alg.name) := by
+    intro h; rcases h with h | h; exact h h1; exact h h2
+  rw [if_neg e0]
+  unfold verdict
+  rw [hv]
+  by_cases hs : MacSizeAllowed alg.outputSize r.macSize
+  · rw [if_neg (fun h => h hs), if_neg (fun h => h h3), if_neg (fun h => h hs)]
+    by_cases hmac : List.take r.macSize (hm alg key (digestInput mode m r.originalId.toNat sv pm)) = r.mac
+    · rw [if_neg (fun h => h hmac)]
+      by_cases ht : TimeOk now.toUnix sv.timeSigned sv.fudge
+      · rw [if_neg (fun h => h ht)]; simp [verdictOut, hmac]
+      · rw [if_pos ht]; simp [verdictOut, hmac]
+    · rw [if_pos hmac]; simp [verdictOut, hs, hmac]
+  · rw [if_pos hs]; simp [hs]
+
+/-- BADTIME exactly for an allowed size, the right MAC, and a time outside the window: the time is
+    looked at only after the MAC has been validated (RFC 8945 §5.2.3) -/
+theorem C11_verify_badtime_iff :
+    verifyMode hm mode r m pm alg key now = .err .BadTime ↔
+      MacSizeAllowed alg.outputSize r.macSize ∧
+      (hm alg key (digestInput mode m r.originalId.toNat sv pm)).take r.macSize = r.mac ∧
+      ¬ TimeOk now.toUnix sv.timeSigned sv.fudge := by
+  obtain ⟨h1, h2, h3⟩ := hpre
+  rw [C11_verify_decision hm mode r m pm alg key now sv hv habs]
+  have e0 : ¬ (¬ verifyAsserts mode pm ∨ r.algorithm ≠ alg.name) := by
+    intro h; rcases h with h | h; exact h h1; exact h h2
+  rw [if_neg e0]
+  unfold verdict
+  rw [hv]
+  by_cases hs : MacSizeAllowed alg.outputSize r.macSize
+  · rw [if_neg (fun h => h hs), if_neg (fun h => h h3), if_neg (fun h => h hs)]
+    by_cases hmac : List.take r.macSize (hm alg key (digestInput mode m r.originalId.toNat sv pm)) = r.mac
+    · rw [if_neg (fun h => h hmac)]
+      by_cases ht : TimeOk now.toUnix sv.timeSigned sv.fudge
+      · rw [if_neg (fun h => h ht)]; simp [verdictOut, ht]
+      · rw [if_pos ht]; simp [verdictOut, hs, hmac, ht]
+    · rw [if_pos hmac]; simp [verdictOut, hmac]
+  · rw [if_pos hs]; simp [hs]
+
+end
+
+/-- **When the code panics.**  `verify_*` panics exactly when an assert fails, or — after the size
+    check has passed — the message has no full header or ARCOUNT = 0. -/
+theorem C11_verify_panic_iff (mode : Mode) (r : ReadTsigRr) (m pm : Octets) (alg : Algorithm) (key : Octets)
+    (now : TimeSigned) (sv : Spec.Tsig.Vars) (hv : r.mac.length = r.macSize) (habs : Abstracts r.vars sv) :
+    verifyMode hm mode r m pm alg key now = .panic ↔
+      ¬ verifyAsserts mode pm ∨ r.algorithm ≠ alg.name ∨
+      (MacSizeAllowed alg.outputSize r.macSize ∧ ¬ MsgOk m) := by
+  rw [C11_verify_decision hm mode r m pm alg key now sv hv habs]
+  by_cases h0 : ¬ verifyAsserts mode pm ∨ r.algorithm ≠ alg.name
+  · rw [if_pos h0]
+    constructor
+    · intro _; rcases h0 with h | h; exact Or.inl h; exact Or.inr (Or.inl h)
+    · intro _; rfl
+  · rw [if_neg h0]
+    have h1 : ¬ ¬ verifyAsserts mode pm := fun h => h0 (Or.inl h)
+    have h2 : ¬ r.algorithm ≠ alg.name := fun h => h0 (Or.inr h)
+    by_cases hs : MacSizeAllowed alg.outputSize r.macSize
+    · rw [if_neg (fun h => h hs)]
+      by_cases hm' : MsgOk m
+      · rw [if_neg (fun h => h hm')]
+        constructor
+        · intro h
+          exfalso
+          generalize verdict alg.outputSize _ r.mac now.toUnix sv.timeSigned sv.fudge = vd at h
+          cases vd <;> cases h
+        · intro h; rcases h with h | h | h
+          · exact absurd h h1
+          · exact absurd h h2
+          · exact absurd hm' h.2
+      · rw [if_pos hm']
+        constructor
+        · intro _; exact Or.inr (Or.inr ⟨hs, hm'⟩)
+        · intro _; rfl
+    · rw [if_pos hs]
+      constructor
+      · intro h; cases h
+      · intro h; rcases h with h | h | h
+        · exact absurd h h1
+        · exact absurd h h2
+        · exact absurd h.1 hs
+
+/-- `sign_*` panics exactly outside its documented preconditions (for MAC functions with tags of
+    ordinary length) -/
+theorem C11_sign_panic_iff {ε} (mode : Mode) (p : PreparedTsigRr) (m pm : Octets) (alg : Algorithm) (key : Octets)
+    (sv : Spec.Tsig.Vars) (h : Abstracts (p.vars alg.name) sv)
+    (hlen : (hm alg key (digestInput mode m p.originalId.toNat sv pm)).length ≤ 65000) :
+    signMode (ε := ε) hm mode p m pm alg key = .panic ↔ ¬ (signAsserts mode pm ∧ MsgOk m) := by
+  rw [C11_sign_eq_rfc hm mode p m pm alg key sv h hlen]
+  by_cases hc : signAsserts mode pm ∧ MsgOk m
+  · rw [if_pos hc]; constructor
+    · intro h; cases h
+    · intro h; exact absurd hc h
+  · rw [if_neg hc]; exact ⟨fun _ => hc, fun _ => rfl⟩
+
+/-! ## 3. What is signed verifies -/
+
+/-- **`verify (sign m) = ok` inside the window.**  Take what `sign_*` returned, put the RDATA into a
+    TSIG RR (type TSIG, class ANY, TTL 0) whose owner is the key name in *any* letter case, let a
+    reader turn it into a `ReadTsigRr`, and verify — the same message, or the message with other ID
+    octets (`m'`: a forwarder may have changed the ID; the original ID is in the RR) — with the same
+    key and prior MAC at any time `now` with `|now − time signed| ≤ fudge`: the result is `Ok`.
+    `hOut`: the MAC function returns tags of the algorithm's output size. -/
+theorem C11_verify_sign (mode : Mode) (p : PreparedTsigRr) (m m' pm : Octets) (alg : Algorithm) (key : Octets)
+    (now : TimeSigned) (owner rdata mac : Octets)
+    (hOut : ∀ d, (hm alg key d).length = alg.outputSize)
+    (hown : lowerName owner = p.keyName)
+    (hid : m'.drop 2 = m.drop 2)
+    (hsign : signMode (ε := VerificationError) hm mode p m pm alg key = .ok (rdata, mac))
+    (htime : TimeOk now.toUnix p.timeSigned.toUnix p.fudge.toNat) :
+    ∃ r, ReadTsigRr.tryFrom owner Gen.TYPE_TSIG Gen.QCLASS_ANY 0 rdata = .ok r ∧
+      verifyMode hm mode r m' pm alg key now = .ok () := by
+  obtain ⟨ha, d, hd, hmac, hrd⟩ := signMode_ok hm mode p m pm alg key rdata mac hsign
+  have hml : mac.length = alg.outputSize := by rw [hmac]; exact hOut d
+  have hsmall : mac.length < 65536 := by
+    rcases outputSize_cases alg with h | h <;> omega
+  refine ⟨readOf (lowerName owner) alg.name p.timeSigned p.fudge mac p.originalId p.error p.other, ?_, ?_⟩
+  · rw [hrd]; exact tryFrom_serialized owner alg p.timeSigned p.fudge mac p.originalId p.error p.other hsmall
+  · rw [verifyMode_def]
+    have hva : verifyAsserts mode pm := by
+      cases mode
+      · trivial
+      · exact ha
+      · trivial
+    rw [if_neg (fun h => h hva), readOf_originalId, readOf_vars, hown, inputMode_congr mode m m' pm _ _ hid]
+    have hv : (p.vars alg.name) = ⟨p.keyName, alg.name, p.timeSigned, p.fudge, p.error, p.other⟩ := rfl
+    rw [← hv, hd]
+    rw [verificationCore_ok_input hm _ d alg key now rfl (by rw [readOf_mac]; rfl)]
+    rw [readOf_mac, readOf_timeSigned, readOf_fudge]
+    unfold verdict
+    have hs : MacSizeAllowed alg.outputSize mac.length := by rw [hml]; exact macSizeAllowed_full alg
+    have ht : List.take mac.length (hm alg key d) = mac := by rw [hmac]; simp
+    rw [if_neg (fun h => h hs), if_neg (fun h => h ht), if_neg (fun h => h htime)]
+    rfl
+
+/-! ## 4. Tampering -/
+
+/-- The two ID octets of the message are *not* covered (RFC 8945 §4.3.2: the ID is replaced by the
+    original ID of the TSIG RR): messages that differ only there have the same MAC input. -/
+theorem C11_id_octets_not_covered {ε} (mode : Mode) (m m' pm : Octets) (id : UInt16) (v : Variables)
+    (h : m'.drop 2 = m.drop 2) : inputMode (ε := ε) mode m' pm id v = inputMode mode m pm id v :=
+  inputMode_congr mode m m' pm id v h
+
+/-- **Everything else is covered: the MAC input is uniquely readable.**  If two tuples (message,
+    original ID, prior MAC, variables) have the same MAC input, then they agree on the original ID,
+    on every octet of the message after the ID, on the prior MAC (response, subsequent), on all TSIG
+    variables (request, response) resp. on the timers (subsequent) — provided
+      * `Framed m m'`: the messages have the same length, or neither body is a proper prefix of the
+        other (see `C11_request_digest_ambiguous` for why something of the kind is needed);
+      * the prior MACs fit the 16-bit size field; key and algorithm names are wire-format names. -/
+theorem C11_digest_injective {ε} (mode : Mode) (m m' pm pm' : Octets) (id id' : UInt16) (v v' : Variables)
+    (D : Octets)
+    (h : inputMode (ε := ε) mode m pm id v = .ok D) (h' : inputMode (ε := ε) mode m' pm' id' v' = .ok D)
+    (hf : Framed m m')
+    (hpm : mode ≠ .request → pm.length ≤ 65535 ∧ pm'.length ≤ 65535)
+    (hn : mode ≠ .subsequent →
+      WireName v.keyName ∧ WireName v'.keyName ∧ WireName v.algorithm ∧ WireName v'.algorithm) :
+    id = id' ∧ m.drop 2 = m'.drop 2 ∧ (mode ≠ .request → pm = pm') ∧ (mode ≠ .subsequent → v = v') ∧
+      v.timeSigned = v'.timeSigned ∧ v.fudge = v'.fudge :=
+  inputMode_inj mode m m' pm pm' id id' v v' D h h' hf hpm hn
+
+/-- **Changing any covered octet of the message changes the MAC input**: every position `i ≥ 2`
+    (flags, the four counts — ARCOUNT included — and the whole body), in every mode, whatever the other
+    inputs are.  (No hypothesis on names or MAC lengths is needed: they are the same on both sides.) -/
+theorem C11_covered_octet_changes_digest {ε} (mode : Mode) (m pm : Octets) (id : UInt16) (v : Variables)
+    (D : Octets) (i : Nat) (b : UInt8) (hi : 2 ≤ i) (hlt : i < m.length) (hb : m[i] ≠ b)
+    (h : inputMode (ε := ε) mode m pm id v = .ok D) :
+    inputMode (ε := ε) mode (m.set i b) pm id v ≠ .ok D := by
+  intro h'
+  have key : ∀ (x : Octets) (d d' : Octets),
+      addModifiedMessage (ε := ε) m id = .ok d → addModifiedMessage (ε := ε) (m.set i b) id = .ok d' →
+      d ++ x = d' ++ x → False := by
+    intro x d d' hd hd' he
+    obtain ⟨_, e2, _⟩ := addModifiedMessage_inj m (m.set i b) id id d d' x x hd hd' (by simp) he
+    have := congrArg (fun l => l[i - 2]?) e2
+    simp only [List.getElem?_drop] at this
+    have hi2 : 2 + (i - 2) = i := by omega
+    rw [hi2, List.getElem?_eq_getElem hlt, List.getElem?_set_self (by simpa using hlt)] at this
+    exact hb (Option.some.inj this)
+  cases mode
+  · simp only [inputMode, requestInput] at h h'
+    obtain ⟨d, hd, e⟩ := bind_ok_inv _ _ _ h
+    obtain ⟨d', hd', e'⟩ := bind_ok_inv _ _ _ h'
+    exact key _ d d' hd hd' ((Out.ok.inj e).trans (Out.ok.inj e').symm)
+  · simp only [inputMode, responseInput] at h h'
+    obtain ⟨d, hd, e⟩ := bind_ok_inv _ _ _ h
+    obtain ⟨d', hd', e'⟩ := bind_ok_inv _ _ _ h'
+    have he := (Out.ok.inj e).trans (Out.ok.inj e').symm
+    simp only [List.append_assoc] at he
+    exact key _ d d' hd hd' (List.append_cancel_left he)
+  · simp only [inputMode, subsequentInput] at h h'
+    obtain ⟨d, hd, e⟩ := bind_ok_inv _ _ _ h
+    obtain ⟨d', hd', e'⟩ := bind_ok_inv _ _ _ h'
+    have he := (Out.ok.inj e).trans (Out.ok.inj e').symm
+    simp only [List.append_assoc] at he
+    exact key _ d d' hd hd' (List.append_cancel_left he)
+
+/-- **Changing any covered TSIG variable, the original ID or the prior MAC changes the MAC input**
+    (same message): key name, algorithm name, time signed, fudge, error, other data in request and
+    response mode; time signed and fudge in subsequent mode. -/
+theorem C11_covered_variable_changes_digest {ε} (mode : Mode) (m pm pm' : Octets) (id id' : UInt16)
+    (v v' : Variables) (D : Octets)
+    (hpm : mode ≠ .request → pm.length ≤ 65535 ∧ pm'.length ≤ 65535)
+    (hn : mode ≠ .subsequent →
+      WireName v.keyName ∧ WireName v'.keyName ∧ WireName v.algorithm ∧ WireName v'.algorithm)
+    (hdiff : id ≠ id' ∨ (mode ≠ .request ∧ pm ≠ pm') ∨ (mode ≠ .subsequent ∧ v ≠ v') ∨
+      v.timeSigned ≠ v'.timeSigned ∨ v.fudge ≠ v'.fudge)
+    (h : inputMode (ε := ε) mode m pm id v = .ok D) :
+    inputMode (ε := ε) mode m pm' id' v' ≠ .ok D := by
+  intro h'
+  obtain ⟨e1, _, e3, e4, e5, e6⟩ := inputMode_inj mode m m pm pm' id id' v v' D h h' (Or.inl rfl) hpm hn
+  rcases hdiff with hd | ⟨hd1, hd2⟩ | ⟨hd1, hd2⟩ | hd | hd
+  · exact hd e1
+  · exact hd2 (e3 hd1)
+  · exact hd2 (e4 hd1)
+  · exact hd e5
+  · exact hd e6
+
+/-- **Hence tampering is detected unless the MAC collides.**  A signer signed `(m, p, pm)`; a
+    verifier is given a message `m'`, a record `r'` and a prior MAC `pm'` that differ from what was
+    signed in some covered item, with a MAC that is the signer's tag or a prefix of it (all an
+    attacker without the key has).  If `verify_*` says `Ok`, then the MAC function has produced the
+    same first `mac_size ≥ 10` octets on two *different* inputs — an explicit collision of the
+    truncated MAC, which HMAC is assumed not to yield. -/
+theorem C11_tamper_needs_collision (mode : Mode) (p : PreparedTsigRr) (m pm : Octets) (alg : Algorithm)
+    (key rdata mac : Octets) (r' : ReadTsigRr) (m' pm' : Octets) (now : TimeSigned)
+    (hsign : signMode (ε := VerificationError) hm mode p m pm alg key = .ok (rdata, mac))
+    (hv : r'.mac.length = r'.macSize)
+    (hreuse : r'.mac = mac.take r'.macSize)
+    (hver : verifyMode hm mode r' m' pm' alg key now = .ok ())
+    (hf : Framed m m')
+    (hpm : mode ≠ .request → pm'.length ≤ 65535)
+    (hn : mode ≠ .subsequent → WireName p.keyName ∧ WireName r'.keyName ∧ WireName r'.algorithm)
+    (hdiff : p.originalId ≠ r'.originalId ∨ m.drop 2 ≠ m'.drop 2 ∨ (mode ≠ .request ∧ pm ≠ pm') ∨
+      (mode ≠ .subsequent ∧ p.vars alg.name ≠ r'.vars) ∨
+      p.timeSigned ≠ r'.timeSigned ∨ p.fudge ≠ r'.fudge) :
+    ∃ D D', D ≠ D' ∧ 10 ≤ r'.macSize ∧
+      inputMode (ε := VerificationError) mode m pm p.originalId (p.vars alg.name) = .ok D ∧
+      inputMode (ε := VerificationError) mode m' pm' r'.originalId r'.vars = .ok D' ∧
+      (hm alg key D).take r'.macSize = (hm alg key D').take r'.macSize := by
+  obtain ⟨ha, D, hD, hmac, _⟩ := signMode_ok hm mode p m pm alg key rdata mac hsign
+  obtain ⟨_, halg, hs, D', hD', hm', _⟩ := verifyMode_ok hm mode r' m' pm' alg key now hv hver
+  refine ⟨D, D', ?_, hs.2.1, hD, hD', ?_⟩
+  · intro e
+    subst e
+    have hpm2 : mode ≠ .request → pm.length ≤ 65535 ∧ pm'.length ≤ 65535 := by
+      intro hne
+      refine ⟨?_, hpm hne⟩
+      cases mode
+      · exact absurd rfl hne
+      · exact ha
+      · exact ha
+    have hn2 : mode ≠ .subsequent →
+        WireName (p.vars alg.name).keyName ∧ WireName r'.vars.keyName ∧
+        WireName (p.vars alg.name).algorithm ∧ WireName r'.vars.algorithm := by
+      intro hne
+      obtain ⟨n1, n2, n3⟩ := hn hne
+      exact ⟨n1, n2, by show WireName alg.name; rw [← halg]; exact n3, n3⟩
+    obtain ⟨e1, e2, e3, e4, e5, e6⟩ :=
+      inputMode_inj mode m m' pm pm' p.originalId r'.originalId (p.vars alg.name) r'.vars D hD hD' hf hpm2 hn2
+    rcases hdiff with hd | hd | ⟨hd1, hd2⟩ | ⟨hd1, hd2⟩ | hd | hd
+    · exact hd e1
+    · exact hd e2
+    · exact hd2 (e3 hd1)
+    · exact hd2 (e4 hd1)
+    · exact hd e5
+    · exact hd e6
+  · rw [hm', hreuse, hmac]
+
+/-- **Why a framing hypothesis is needed (a property of RFC 8945's construction, which the code
+    follows).**  Nothing separates the message from the key name in the MAC input, so two different
+    (message, key name) pairs can have the same input: the message `… ‖ 01 61` under key `key.` and
+    the message `…` under key `a.key.`.  The first "message" has two stray octets after its last
+    counted record, so it is not a well-formed DNS message; the server never hands such a buffer to
+    `verify_request` (it passes the octets up to the TSIG RR it has just parsed), and the two key names
+    would have to share one secret. -/
+theorem C11_request_digest_ambiguous :
+    ∃ (m m' : Octets) (id : UInt16) (v v' : Variables),
+      m ≠ m' ∧ v ≠ v' ∧ WireName v.keyName ∧ WireName v'.keyName ∧ v.algorithm = v'.algorithm ∧
+      (∃ D, requestInput (ε := Unit) m id v = .ok D ∧ requestInput (ε := Unit) m' id v' = .ok D) := by
+  let hdr : Octets := [0, 1, 0, 0, 0, 0, 0, 0, 0, 0, 0, 1]
+  let t : TimeSigned := ⟨0, 0, 0, 0, 0, 0⟩
+  refine ⟨hdr ++ [1, 97], hdr, 7, ⟨[3, 107, 101, 121, 0], hmacSha256Name, t, 300, 0, []⟩,
+    ⟨[1, 97, 3, 107, 101, 121, 0], hmacSha256Name, t, 300, 0, []⟩, by decide, by decide, ?_, ?_, rfl, ?_⟩
+  · exact WireName.label 3 [107, 101, 121] [0] (by decide) rfl WireName.root
+  · exact WireName.label 1 [97] _ (by decide) rfl (WireName.label 3 [107, 101, 121] [0] (by decide) rfl WireName.root)
+  · exact ⟨[0, 7, 0, 0, 0, 0, 0, 0, 0, 0, 0, 0, 1, 97, 3, 107, 101, 121, 0, 0, 255, 0, 0, 0, 0,
+        11, 104, 109, 97, 99, 45, 115, 104, 97, 50, 53, 54, 0, 0, 0, 0, 0, 0, 0, 1, 44, 0, 0, 0, 0],
+      by decide +kernel, by decide +kernel⟩
+
+/-- `verify_subsequent` does not assert that the prior MAC fits the 16-bit size field (its
+    documentation says it may panic; it silently wraps instead): prior MACs whose lengths differ by
+    65536 and that agree … cannot collide here, but the *length prefix* does — the digest input of a
+    65536-octet prior MAC starts with `00 00` like that of an empty one. -/
+theorem C11_verify_subsequent_prior_mac_wraps (pm : Octets) (h : pm.length = 65536) :
+    (addPriorMac pm).take 2 = addPriorMac [] := by
+  unfold addPriorMac
+  rw [h]; rfl
+
+/-! ## non-vacuity: concrete instances of the hypotheses used above -/
+
+/-- a 12-octet header with ARCOUNT = 1 satisfies the precondition -/
+example : MsgOk [0, 1, 0, 0, 0, 0, 0, 0, 0, 0, 0, 1] := by decide
+
+/-- `Abstracts` holds for the variables of a concrete `PreparedTsigRr` with key `key.` and SHA-256 -/
+example : Abstracts
+    ((⟨[3, 107, 101, 121, 0], ⟨0, 0, 0x5f, 0x5e, 0x10, 0⟩, 300, 1, 0, ⟨0, 0, 0, 0, 0, 0⟩⟩ : PreparedTsigRr).vars
+      (Algorithm.name .HmacSha256))
+    { keyName := [[107, 101, 121]], algName := [[104, 109, 97, 99, 45, 115, 104, 97, 50, 53, 54]],
+      timeSigned := 1600000000, fudge := 300, error := 0, other := [] } :=
+  ⟨by decide, by decide, rfl, rfl, by decide, by decide, by decide, by decide⟩
+
+/-- the algorithm names are wire names -/
+example : WireName (Algorithm.name .HmacSha256) :=
+  WireName.label 11 [104, 109, 97, 99, 45, 115, 104, 97, 50, 53, 54] [0] (by decide) rfl WireName.root
+
+/-- messages of equal length are framed; so are a message and itself with one octet changed -/
+example (m : Octets) (i : Nat) (b : UInt8) : Framed m (m.set i b) := Or.inl (by simp)
+
+/-- a MAC function with tags of the right size exists (constant tags), so `hOut` is satisfiable;
+    sizes 20 and 32 are allowed, 9 and 33 are not, 16 only for SHA-256 -/
+example : ∀ alg : Algorithm, ∀ d : Octets,
+    ((fun (a : Algorithm) (_ _ : Octets) => List.replicate a.outputSize (0 : UInt8)) alg [] d).length = alg.outputSize := by
+  intro alg d; simp
+
+example : MacSizeAllowed 20 10 ∧ MacSizeAllowed 32 16 ∧ ¬ MacSizeAllowed 32 15 ∧ ¬ MacSizeAllowed 20 9 ∧
+    ¬ MacSizeAllowed 32 33 ∧ MacSizeAllowed 20 20 := by decide
+
+/-- the time window is inclusive at both ends -/
+example : TimeOk 1300 1000 300 ∧ TimeOk 700 1000 300 ∧ ¬ TimeOk 1301 1000 300 ∧ ¬ TimeOk 699 1000 300 ∧
+    TimeOk 0 100 300 := by decide
+
+/-- **Tampering is detected** — the contrapositive of `C11_tamper_needs_collision`: if the MAC
+    function does not give the two (different) MAC inputs at hand the same first `mac_size` octets,
+    `verify_*` does not return `Ok` on a message / record / prior MAC that differs in a covered item
+    from what was signed.  (`hnc` speaks about these two inputs only; it is what HMAC's security
+    gives with overwhelming probability, and it is not assumed for *all* pairs — no function with
+    fixed-size tags could satisfy that.) -/
+theorem C11_tamper_detected (mode : Mode) (p : PreparedTsigRr) (m pm : Octets) (alg : Algorithm)
+    (key rdata mac : Octets) (r' : ReadTsigRr) (m' pm' : Octets) (now : TimeSigned)
+    (hsign : signMode (ε := VerificationError) hm mode p m pm alg key = .ok (rdata, mac))
+    (hv : r'.mac.length = r'.macSize)
+    (hreuse : r'.mac = mac.take r'.macSize)
+    (hf : Framed m m')
+    (hpm : mode ≠ .request → pm'.length ≤ 65535)
+    (hn : mode ≠ .subsequent → WireName p.keyName ∧ WireName r'.keyName ∧ WireName r'.algorithm)
+    (hdiff : p.originalId ≠ r'.originalId ∨ m.drop 2 ≠ m'.drop 2 ∨ (mode ≠ .request ∧ pm ≠ pm') ∨
+      (mode ≠ .subsequent ∧ p.vars alg.name ≠ r'.vars) ∨
+      p.timeSigned ≠ r'.timeSigned ∨ p.fudge ≠ r'.fudge)
+    (hnc : ∀ D D', D ≠ D' →
+      inputMode (ε := VerificationError) mode m pm p.originalId (p.vars alg.name) = .ok D →
+      inputMode (ε := VerificationError) mode m' pm' r'.originalId r'.vars = .ok D' →
+      (hm alg key D).take r'.macSize ≠ (hm alg key D').take r'.macSize) :
+    verifyMode hm mode r' m' pm' alg key now ≠ .ok () := by
+  intro hver
+  obtain ⟨D, D', hne, _, hD, hD', hc⟩ :=
+    C11_tamper_needs_collision hm mode p m pm alg key rdata mac r' m' pm' now hsign hv hreuse hver hf hpm hn hdiff
+  exact hnc D D' hne hD hD' hc
+
+/-! ### a complete concrete instance (non-vacuity of §3 and §4) -/
+
+/-- toy MAC function: constant tags of the right size — every two inputs collide -/
+def constMac : Algorithm → Octets → Octets → Octets := fun a _ _ => List.replicate a.outputSize 0
+
+def exMsg : Octets := [0, 1, 0, 0, 0, 0, 0, 0, 0, 0, 0, 1]
+def exP : PreparedTsigRr := ⟨[3, 107, 101, 121, 0], ⟨0, 0, 0x5f, 0x5e, 0x10, 0⟩, 300, 1, 0, ⟨0, 0, 0, 0, 0, 0⟩⟩
+def exRdata : Octets :=
+  [9, 104, 109, 97, 99, 45, 115, 104, 97, 49, 0, 0, 0, 95, 94, 16, 0, 1, 44, 0, 20, 0, 0, 0, 0, 0, 0, 0, 0, 0, 0, 0, 0,
+   0, 0, 0, 0, 0, 0, 0, 0, 0, 1, 0, 0, 0, 0]
+def exMac : Octets := List.replicate 20 0
+
+theorem C11_example_sign : signMode (ε := VerificationError) constMac .request exP exMsg [] .HmacSha1 [1] = .ok (exRdata, exMac) := by
+  decide +kernel
+
+/-- the hypotheses of `C11_verify_sign` hold for the toy instance (owner in upper case, message with
+    another ID, `now` at the far end of the window) … -/
+example : ∃ r, ReadTsigRr.tryFrom [3, 75, 69, 89, 0] Gen.TYPE_TSIG Gen.QCLASS_ANY 0 exRdata = .ok r ∧
+    verifyMode constMac .request r [0xab, 0xcd, 0, 0, 0, 0, 0, 0, 0, 0, 0, 1] [] .HmacSha1 [1]
+      ⟨0, 0, 0x5f, 0x5e, 0x11, 0x2c⟩ = .ok () :=
+  C11_verify_sign constMac .request exP exMsg _ [] .HmacSha1 [1] _ [3, 75, 69, 89, 0] exRdata exMac
+    (fun _ => by simp [constMac]) (by decide) (by decide) C11_example_sign (by decide)
+
+/-- … and those of `C11_tamper_needs_collision`: with the colliding toy MAC a message with changed
+    flags *is* accepted, and the theorem exhibits the collision. -/
+example : ∃ D D', D ≠ D' ∧ (constMac .HmacSha1 [1] D).take 20 = (constMac .HmacSha1 [1] D').take 20 := by
+  have h := C11_tamper_needs_collision constMac .request exP exMsg [] .HmacSha1 [1] exRdata exMac
+    (readOf exP.keyName (Algorithm.name .HmacSha1) exP.timeSigned exP.fudge exMac exP.originalId exP.error exP.other)
+    [0, 1, 0x80, 0, 0, 0, 0, 0, 0, 0, 0, 1] [] ⟨0, 0, 0x5f, 0x5e, 0x10, 0⟩ C11_example_sign
+    (by decide +kernel) (by decide +kernel) (by decide +kernel) (Or.inl rfl) (fun h => absurd rfl h)
+    (fun _ => ⟨WireName.label 3 [107, 101, 121] [0] (by decide) rfl WireName.root,
+               WireName.label 3 [107, 101, 121] [0] (by decide) rfl WireName.root,
+               WireName.label 9 [104, 109, 97, 99, 45, 115, 104, 97, 49] [0] (by decide) rfl WireName.root⟩)
+    (Or.inr (Or.inl (by decide)))
+  obtain ⟨D, D', hne, _, _, _, hc⟩ := h
+  exact ⟨D, D', hne, hc⟩
+
 
 end QV.C11
